@@ -742,6 +742,35 @@ func c14Agreement(w *World, idx *indexer.KVIndexer) {
 			if !okk {
 				r.Violate("C14", "rpc_block_transactions", nil, "eth_getBlockByNumber(%d) lists %d transactions, the block has %d Ethereum txs that passed admission (or the order differs)", rec.Height, len(hashes), len(want))
 			}
+			// the block's own gas used is the cumulative gas of its last Ethereum transaction (executed, failed or
+			// aborted by the block gas meter alike), and every listed transaction carries its position
+			wantGas := uint64(0)
+			if len(want) > 0 {
+				wantGas = want[len(want)-1].Cum
+			}
+			r.Count("o:c14_block_views_checked")
+			r.Probe("c14_block_view_with_aborted_tx_after_two_receipts", len(want) > 2 && !want[len(want)-1].T.HasReceipt)
+			if gu, ok := blk["gasUsed"].(*hexutil.Big); !ok || gu == nil || gu.ToInt().Cmp(new(big.Int).SetUint64(wantGas)) != 0 {
+				r.Violate("C14", "rpc_block_field", map[string]string{"field": "gasUsed"}, "eth_getBlockByNumber(%d).gasUsed = %v, the cumulative gas of the block's last Ethereum tx in the consensus results is %d", rec.Height, blk["gasUsed"], wantGas)
+			}
+			for i, x := range txs {
+				rt, ok := x.(*rpctypes.RPCTransaction)
+				if !ok || !okk {
+					break
+				}
+				if rt.BlockNumber == nil || rt.BlockNumber.ToInt().Int64() != rec.Height || rt.TransactionIndex == nil || uint64(*rt.TransactionIndex) != uint64(i) || rt.From != want[i].T.From {
+					r.Violate("C14", "rpc_block_field", map[string]string{"field": "transaction_position_or_sender"}, "eth_getBlockByNumber(%d): transaction %d is reported with block %v index %v sender %s (sender by consensus: %s)", rec.Height, i, rt.BlockNumber, ptrU(rt.TransactionIndex), rt.From.Hex(), want[i].T.From.Hex())
+					break
+				}
+			}
+			if bh, ok := blk["hash"].(hexutil.Bytes); ok {
+				blk2, err := be.GetBlockByHash(common.BytesToHash(bh), false)
+				if err != nil || blk2 == nil {
+					r.Violate("C14", "rpc_block_not_found", map[string]string{"by": "hash"}, "eth_getBlockByHash of the hash reported for block %d = nil, %v", rec.Height, err)
+				} else if fmt.Sprint(blk2["gasUsed"]) != fmt.Sprint(blk["gasUsed"]) || fmt.Sprint(blk2["number"]) != fmt.Sprint(blk["number"]) || fmt.Sprint(blk2["logsBloom"]) != fmt.Sprint(blk["logsBloom"]) {
+					r.Violate("C14", "rpc_block_field", map[string]string{"field": "by_hash_vs_by_number"}, "block %d by hash and by number disagree on gasUsed / number / logsBloom", rec.Height)
+				}
+			}
 		})
 		guard("eth_getLogs", func() {
 			h := rec.Height
